@@ -7,7 +7,7 @@ from ..engine import rule
 from ..flow import PRUNE, Violation, explore, if_branches, \
     ifs_with_following, implied_atoms, \
     path_ends, \
-    path_is, prov_has, provenance
+    path_is, prov_has, provenance, store_value
 from ..model import dotted, walk_local
 
 WRITER = 'ZODB.serialize.ObjectWriter'
@@ -791,3 +791,81 @@ def r10(R):
     R.count(stats)
     for v in vs:
         R.violation(v.node, v.message, g, v.path)
+
+
+# ----------------------------------------------------------------- C14.R11
+@rule('C14.R11', 'the writer stores a weak reference under the oid its '
+      'target has NOW: the oid a weak reference remembers is used only '
+      'after it was held against the target\'s current oid (the target of a '
+      'reference made in an aborted transaction was disowned and gets a new '
+      'oid)', props=['C11'], min_instances=1)
+def r11(R):
+    w = R.prog.cls(WRITER)
+    f = R.method(w, 'persistent_id')
+    g, b, F = R.cfg(f, w, max_depth=0)
+    seen = [0]
+    from ..flow import Flags
+    oidvars = {t.id for s_ in walk_local(f.node) if isinstance(s_, ast.Assign)
+               and isinstance(s_.value, ast.Attribute) and
+               s_.value.attr == 'oid'
+               for t in s_.targets if isinstance(t, ast.Name)}
+    flags = Flags(F, lambda e, fr: e.id if isinstance(e, ast.Name) and
+                  e.id in oidvars else None)
+
+    def edge(node, st0, lab, tgt):
+        st, fl = st0
+        fl = flags.learn(node, fl, lab)
+        if fl is PRUNE:
+            return PRUNE
+        if lab not in ('e', 'eb'):
+            fl = flags.assign(node, fl, lab)
+        return (edge1(node, st, lab, tgt), fl)
+
+    def edge1(node, st, lab, tgt):
+        if node.kind == 'test' and lab in ('T', 'F') and st == 'remembered':
+            for x in ast.walk(node.ast):
+                if isinstance(x, ast.Compare) and any(
+                        isinstance(y, ast.Attribute) and y.attr == '_p_oid'
+                        for y in [x.left] + list(x.comparators)):
+                    return 'held-against-target'
+        if lab in ('e', 'eb'):
+            return st
+        for op in F.ops(node):
+            if op.kind == 'store' and op.path and op.path[0] == '%local':
+                v = store_value(op)
+                if isinstance(v, ast.Attribute) and v.attr == 'oid' and \
+                        isinstance(v.value, ast.Name) and \
+                        v.value.id in f.params:
+                    st = 'remembered'        # oid = obj.oid
+                elif st == 'remembered' and op.path[1] != '%tmp':
+                    if isinstance(v, ast.Attribute) and v.attr == '_p_oid':
+                        st = 'fresh'
+                    elif isinstance(v, ast.Call) and dotted(v.func) and \
+                            dotted(v.func)[-1] == 'new_oid':
+                        st = 'fresh'
+        return st
+
+    def at(node, st):
+        if node.kind == 'return' and isinstance(node.ast.value, ast.List) \
+                and node.ast.value.elts and isinstance(
+                    node.ast.value.elts[0], ast.Constant) and \
+                node.ast.value.elts[0].value == 'w':
+            seen[0] += 1
+            if st[0] == 'remembered':
+                return Violation(
+                    'persistent_id stores a weak reference under the oid '
+                    'the reference remembers without holding it against '
+                    'the target\'s current oid: a reference first '
+                    'serialised in a transaction that was aborted keeps the '
+                    'oid of the disowned target; stored again it dangles '
+                    'for every other connection')
+        return st
+
+    vs, stats = explore(g, ('start', frozenset()), at=at, edge=edge)
+    R.count(stats)
+    R.instance('ObjectWriter.persistent_id weak-reference branch',
+               returns=seen[0])
+    R.require(seen[0] or vs, 'persistent_id no longer writes weak references')
+    for v in vs[:1]:
+        R.violation(v.node, v.message, g, v.path,
+                    key='remembered oid of a weak reference not checked')
